@@ -27,8 +27,8 @@ theorem store_is_image (ps : PS) (h : syncedB ps = true) :
     parts — `restart` — whatever the write-behind grouping was (the fold is over logical batches). -/
 theorem reload_is_restart (ps : PS) (h : syncedB ps = true) :
     load ps.st.world (storeFrom {} (batches {} ps.trace)) =
-      { restart ps.st with log := [], choicePoints := 0 } := by
-  rw [store_is_image ps h]; rfl
+      { restart ps.st with log := [], choicePoints := 0, tapePos := 0 } := by
+  rw [store_is_image ps h, restart_is_reload]; rfl
 
 /-- "with no input having to be set again": the reloaded state has the same timestamp, the same
     nodes (inputs included, with their values), the same backward and dirty edges. -/
@@ -40,6 +40,22 @@ theorem restart_keeps_inputs (s : St) :
     de-duplication set of the dirty worker (and the statistic) -/
 theorem restart_loses_only_dirtied {s : St} (h : Quiescent s) :
     restart s = { s with dirtied := [], dirtiedEdges := 0 } := restart_quiescent h
+
+/-- "restarts inserted at arbitrary positions": for the full model AS IT IS (known finding F1 not
+    repaired) a restart in the middle of an epoch is NOT transparent — witness (finding F20,
+    reproduced on the real engine: corpus/C07-F20-dirtied-after-F1.txt).  The third round returns the
+    stale `Q = 10` (from-scratch: 20) with and without the restart: that is F1.  Then firewall `F` is
+    queried in the same epoch.  Without the restart its dirty propagation skips `x` (already in the
+    per-epoch `dirtied` set since the commit), `Q` keeps its clean edge and stays at 10 in the next
+    epoch; the reopened engine has an empty `dirtied` set, re-marks `(Q, x)`, and answers 20.  With F1
+    repaired in the model (`f1`) both runs return the from-scratch values and the restart changes
+    nothing on this history. -/
+theorem restart_mid_epoch_witness :
+    runH {} witnessProgram (witnessBefore ++ witnessAfter) PS.init = some [[0], [10], [10], [20], [10]] ∧
+    runH {} witnessProgram (witnessBefore ++ [.restart] ++ witnessAfter) PS.init = some [[0], [10], [10], [20], [20]] ∧
+    runH { f1 := true } witnessProgram (witnessBefore ++ witnessAfter) PS.init = some [[0], [10], [20], [20], [20]] ∧
+    runH { f1 := true } witnessProgram (witnessBefore ++ [.restart] ++ witnessAfter) PS.init = some [[0], [10], [20], [20], [20]] := by
+  refine ⟨?_, ?_, ?_, ?_⟩ <;> decide +kernel
 
 example : Quiescent ({} : St) ∧ syncedB PS.init = true := ⟨⟨rfl, rfl, rfl⟩, by decide⟩
 
